@@ -8,6 +8,7 @@ func All() []core.Prop {
 		C01{},
 		C07{},
 		C08{},
+		C11{},
 		C13{},
 		C14{},
 		C17{},
